@@ -308,4 +308,29 @@ theorem range_bad_casts (s : RSt) (hne : s.data ≠ []) (hs : sortedMembers s.da
 example : (∃ d, parseRange "Eth1/1-3".toList = .ok d ∧ d ≠ [] ∧ sortedMembers d = .ok d) := by
   refine ⟨_, rfl, by decide, by decide⟩
 
+/-! ## `str()`, `repr()`, `obj[k]`, `==`, `obj.data` of a range; `reverse` is invisible to them -/
+
+theorem listEq_refl (d : List Intf) : listEq d d = true := by
+  induction d with
+  | nil => rfl
+  | cons a d ih => simp [listEq, ih, eq]
+
+/-- The further readers of a range are functions of the data alone (`reverse` does not matter,
+and no new state is produced): a range that has only been read is `==` to a freshly parsed one,
+`obj.data` is the member list that iteration shows, `obj[k]` is its `k`-th member and raises
+`IndexError` from `len` on. -/
+theorem range_further_readers (rt : Str) (d : List Intf) (r1 r2 : Bool) (x : RRead) (k : Nat) :
+    readR rt d ⟨d, r1⟩ x = readR rt d ⟨d, r2⟩ x ∧
+    readR rt d ⟨d, r1⟩ .eqFresh = .ok (.bool true) ∧
+    readR rt d ⟨d, r1⟩ .data = .ok (.members (iter d).2) ∧
+    (∀ h : k < d.length, readR rt d ⟨d, r1⟩ (.idx k) = .ok (.member d[k])) ∧
+    (d.length ≤ k → readR rt d ⟨d, r1⟩ (.idx k) = .error .indexError) := by
+  refine ⟨by cases x <;> rfl, by simp [readR, listEq_refl], rfl, ?_, ?_⟩
+  · intro h; simp [readR, List.getElem?_eq_getElem h]
+  · intro h; simp [readR, List.getElem?_eq_none h]
+
+example : ((IntfX.construct true "Eth1/1-2".toList).toOption.map (fun s =>
+    (readR "None".toList s.data s .str, readR "None".toList s.data s .eqFresh, readR "None".toList s.data s (.idx 2)))) =
+    some (.ok (.text "[Eth1/1, Eth1/2]".toList), .ok (.bool true), .error .indexError) := by decide +kernel
+
 end Ccp.C15
